@@ -33,7 +33,13 @@ RTOL = 1e-12
 
 
 def plan(tier, seed):
-    return core.std_plan(PROP, tier, seed, quick=6000, thorough=120000)
+    specs = core.std_plan(PROP, tier, seed, quick=6000, thorough=120000)
+    if tier == 'thorough':
+        # the repository's own tests with the contracts switched on
+        specs.append({'prop': PROP, 'tier': tier, 'seed': seed,
+                      'shard': 9000, 'mode': 'repo-tests',
+                      'hashseed': 0})
+    return specs
 
 
 def _flat(arr):
@@ -415,6 +421,13 @@ def _rk(kind):
 
 
 def run(spec, rec):
+    if spec.get('mode') == 'repo-tests':
+        core.repo_tests_under_contracts(['Dataset'],
+                                        ['tests/eponine/test_dataset.py', 'valjean/eponine/dataset.py', 'tests/gavroche'],
+                                        rec, {'mode': 'repo-tests'})
+        for name in DECIDING:
+            rec.count(name, 0)
+        return
     warnings.simplefilter('ignore')
     contracts.install(['Dataset'])
     for idx in range(spec['lo'], spec['hi']):
